@@ -79,3 +79,8 @@ chk("C17", "model_checking",
     "without the final-component guard); every archive is built as a real UnixFS DAG and extracted by the built car binary in a sandbox whose outside is snapshotted before/after.",
     "Exhaustive within: <= 2 (3) top-level entries, 23 leaf entry kinds + directories, 4 pre-populated states, one/two roots. " + TB + " The kernel's path resolution.",
     "TLA+ file-system model + TLC-enumerated hostile archives extracted by the real binary with snapshot comparison", "DESIGN.md §3 C17")
+chk("C18", "exploration",
+    "Tree.tla gives the tree extraction must produce for each source tree and wrapping mode (RoundTrip checked by TLC); a seeded sample of the TLC-enumerated (tree, configuration) cases is run through the built "
+    "car create / car root / car extract and compared entry by entry.",
+    "Model-generated cases, sampled (quick: 15% of 9k cases). Chunking/sharding are go-unixfsnode's. " + TB,
+    "TLA+ tree model as case generator and oracle + real CLI round trip", "DESIGN.md §3 C18")
